@@ -160,7 +160,8 @@ def getExtension (p : Pkt) (id : Nat) : Option Bytes :=
   | none => none
   | some e =>
     if e.profile = 0xBEDE then getExt1 id (e.data.length + 1) e.data
-    else if e.profile = 0x1000 then getExt2 id (e.data.length + 1) e.data
+    -- `ext.profile & 0xFFF0 == 0x1000`: every two-byte-header profile 0x1000..=0x100F (RFC 8285 appbits ignored)
+    else if e.profile / 16 = 0x100 then getExt2 id (e.data.length + 1) e.data
     else none
 
 /-- `decode_ext_id(raw).and_then(|id| get_extension(id))` -/
@@ -221,13 +222,39 @@ def stageMid (r : Reg) (p : Pkt) : Option Lid :=
   | some mid => if utf8Valid mid then lookup mid r.byMid else none
   | none => none
 
-/-- the MID extension is present, valid UTF-8, and registered by nobody: since the `fix:` commit
-"drop an inbound RTP packet whose MID no receiver registered" the selection block returns at once
-(before it, the packet fell through to the SSRC / payload-type / provisional stages) -/
-def midMiss (r : Reg) (p : Pkt) : Bool :=
+/-- the media section a listener registered for, as far as the transport knows: the MID on its route -/
+def sectionOf (r : Reg) (l : Lid) : Option Bytes := (r.routes.find? (fun rt => rt.lid = l)).bind (·.mid)
+
+/-- the packet's MID when the extension is present, valid UTF-8, and registered by nobody -/
+def unknownMid (r : Reg) (p : Pkt) : Option Bytes :=
   match extOf p r.midExt with
-  | some mid => utf8Valid mid && (lookup mid r.byMid).isNone
-  | none => false
+  | some mid => if utf8Valid mid && (lookup mid r.byMid).isNone then some mid else none
+  | none => none
+
+/-- the stages after RID and MID, in the code's order: SSRC map, unique payload type, single provisional -/
+def lateStages (r : Reg) (p : Pkt) : Option (Lid × Via × Bool) :=
+  match lookup p.ssrc r.bySsrc with
+  | some l => some (l, .ssrc, false)
+  | none =>
+    match uniqueByPt r p.pt with
+    | some l => some (l, .pt, true)
+    | none =>
+      -- the provisional listener is the fallback for packets no route claims: a payload type some route lists gets
+      -- here only when it is ambiguous, and is dropped (`fix:` "the provisional fallback does not take a packet whose
+      -- payload type is ambiguous")
+      if r.routes.any (fun rt => rt.pts.contains p.pt) then none
+      else
+      match singleProvisional r with
+      | some l => some (l, .prov, false)
+      | none => none
+
+/-- a packet naming a media section nobody registered may still be routed by the later stages, but never to a
+receiver that registered for ANOTHER media section (`fix:` "an unregistered MID only vetoes receivers of
+another media section") -/
+def vetoed (r : Reg) (p : Pkt) (l : Lid) : Bool :=
+  match unknownMid r p, sectionOf r l with
+  | some m, some m' => m' != m
+  | _, _ => false
 
 /-- the selection block of `receive`, in the code's order; the `Bool` is `bind_ssrc` -/
 def select (r : Reg) (p : Pkt) : Option (Lid × Via × Bool) :=
@@ -237,17 +264,9 @@ def select (r : Reg) (p : Pkt) : Option (Lid × Via × Bool) :=
     match stageMid r p with
     | some l => some (l, .mid, true)
     | none =>
-      if midMiss r p then none
-      else
-      match lookup p.ssrc r.bySsrc with
-      | some l => some (l, .ssrc, false)
-      | none =>
-        match uniqueByPt r p.pt with
-        | some l => some (l, .pt, true)
-        | none =>
-          match singleProvisional r with
-          | some l => some (l, .prov, false)
-          | none => none
+      match lateStages r p with
+      | some (l, v, b) => if vetoed r p l then none else some (l, v, b)
+      | none => none
 
 /-- what happened to one inbound packet -/
 inductive Outcome where
